@@ -82,6 +82,42 @@ pub fn days_from_civil(y: i64, m: u32, d: u32) -> i64 {
     era * 146_097 + doe - 719_468
 }
 
+/// Inverse of `days_from_civil` (Howard Hinnant's `civil_from_days`).
+#[allow(dead_code)]
+pub fn civil_from_days(z: i64) -> (i64, u32, u32) {
+    let z = z + 719_468;
+    let era = if z >= 0 { z } else { z - 146_096 } / 146_097;
+    let doe = z - era * 146_097;
+    let yoe = (doe - doe / 1460 + doe / 36_524 - doe / 146_096) / 365;
+    let y = yoe + era * 400;
+    let doy = doe - (365 * yoe + yoe / 4 - yoe / 100);
+    let mp = (5 * doy + 2) / 153;
+    let d = (doy - (153 * mp + 2) / 5 + 1) as u32;
+    let m = if mp < 10 { mp + 3 } else { mp - 9 } as u32;
+    (if m <= 2 { y + 1 } else { y }, m, d)
+}
+
+/// Calendar fields of a count of nanoseconds since 1900-01-01T00:00:00 in a scale whose days all
+/// have 86 400 s (a TAI count, or a UTC count as hifitime keeps it). Used by the unit tests and
+/// kept for one-off probes: O6 itself compares hifitime's calendar with itself (DESIGN 7).
+#[allow(dead_code)]
+pub fn civil_fields(count_ns: i128) -> (i32, u8, u8, u8, u8, u8, u32) {
+    const DAY_NS: i128 = 86_400 * 1_000_000_000;
+    let days = count_ns.div_euclid(DAY_NS) as i64;
+    let rem = count_ns.rem_euclid(DAY_NS);
+    let (y, m, d) = civil_from_days(days + days_from_civil(1900, 1, 1));
+    let s = (rem / 1_000_000_000) as i64;
+    (
+        y as i32,
+        m as u8,
+        d as u8,
+        (s / 3600) as u8,
+        (s / 60 % 60) as u8,
+        (s % 60) as u8,
+        (rem % 1_000_000_000) as u32,
+    )
+}
+
 /// Seconds from 1900-01-01 00:00:00 to midnight of the civil date, counting 86 400 s per day
 /// (the convention of the IERS list's first column).
 pub fn ntp_seconds_of_date(y: i64, m: u32, d: u32) -> u64 {
@@ -159,5 +195,12 @@ mod tests {
         assert_eq!(ntp_seconds_of_date(1972, 1, 1), 2_272_060_800);
         assert_eq!(ntp_seconds_of_date(2017, 1, 1), 3_692_217_600);
         assert_eq!(ntp_seconds_of_date(1972, 7, 1), 2_287_785_600);
+        for z in [-800_000i64, -25_567, -1, 0, 1, 59, 60, 10_956, 11_016, 2_932_896] {
+            let (y, m, d) = civil_from_days(z);
+            assert_eq!(days_from_civil(y, m, d), z);
+        }
+        assert_eq!(civil_fields(0), (1900, 1, 1, 0, 0, 0, 0));
+        assert_eq!(civil_fields(-1), (1899, 12, 31, 23, 59, 59, 999_999_999));
+        assert_eq!(civil_fields(3_692_217_600 * 1_000_000_000 + 5), (2017, 1, 1, 0, 0, 0, 5));
     }
 }
